@@ -35,7 +35,7 @@ REQUIRED_COUNTERS = ["resolutions_checked", "undefined_checked", "strict_nameerr
 _st = {}
 
 SITES = ["ctx", "page", "body", "defarg", "encl", "loop", "mod", "nsimport", "builtin"]
-READS = ["body", "def", "defcb", "nested", "anonblock", "namedblock", "callbody", "calldef", "ctrl", "attr", "filter"]
+READS = ["body", "def", "defcb", "nested", "anonblock", "namedblock", "callbody", "calldef", "ctrl", "attr", "attr2", "filter"]
 SHOW = (
     "<%!\n"
     "def show(v):\n"
@@ -78,7 +78,7 @@ def expected(sites, read, name):
     if "page" in s:
         body_locals.append("ctx" if "ctx" in s else "page")  # render(x=..) fills the page argument
     order = []
-    if read in ("body", "ctrl", "attr", "callbody", "calldef", "anonblock", "filter"):
+    if read in ("body", "ctrl", "attr", "attr2", "callbody", "calldef", "anonblock", "filter"):
         # python locals / closures of the body
         if "loop" in s:
             order.append("loop")
@@ -160,6 +160,9 @@ def build(sites, read, name, layout):
         core = "%% for y_ in [show(%s)]:%s[${y_}]%s%% endfor%s" % (name, nl, nl, nl)
     elif read == "attr":
         core = '<%%self:echo v="${show(%s)}"/>' % name
+    elif read == "attr2":
+        # a tag attribute holding TWO expressions; the name is read in the first one
+        core = "<%%include file=\"${keep(%s)}${'inc.html'}\"/>[${KEPT[-1]}]" % name
     elif read == "filter":
         core = "[${'' | n,mkf(%s)}]" % name
     elif read == "callbody":
@@ -186,7 +189,7 @@ def build(sites, read, name, layout):
     defs.append('<%def name="echo(v)">[${v}]</%def>')
     defs.append('<%def name="wrap()">${caller.body()}</%def>')
     defs.append('<%def name="wrapn()">${caller.nx()}</%def>')
-    defs.append("<%!\ndef mkf(v):\n    return lambda s: show(v)\n%>")
+    defs.append("<%!\ndef mkf(v):\n    return lambda s: show(v)\nKEPT = []\ndef keep(v):\n    KEPT.append(show(v))\n    return ''\n%>")
     arg = "%s='defarg:%s'" % (name, name) if "defarg" in s else ""
     if read in ("def", "defcb"):
         defs.append('<%%def name="rd(%s)">%s</%%def>' % (arg, maybe("[" + rd + "]", inner_loop)))
@@ -216,6 +219,7 @@ def run_resolution(case, res):
         text, ns, kw = build(sites, read, name, layout)
         lk = L(strict_undefined=strict)
         lk.put_string("ns.html", ns)
+        lk.put_string("inc.html", "")
         what = "binding sites %r, read in %s, strict_undefined=%s" % (sites, read, strict)
         rc = {"kind": "resolution", "items": [[sites, read, strict, li]]}
         try:
